@@ -203,7 +203,7 @@ pub fn digest(seed: u64, n: u64) -> Vec<String> {
         let text = render_default(&e).unwrap_or_default();
         let rec = match parse_g(&text) {
             Ok(Ok((o, tree))) => match compile_g(&tree, &o, "/dev/x") {
-                Ok((Ok(c), _, _)) => format!("{:?}|{:?}|{}|{}", o, tree, c.text, io_map_sorted(&c.io_map)),
+                Ok((Ok(c), t0, t1)) => format!("{:?}|{:?}|{}|{}", o, tree, normalise_clock(&c.text, t0, t1), io_map_sorted(&c.io_map)),
                 Ok((Err(m), _, _)) => format!("{:?}|CompileErr({})", tree, m),
                 Err(p) => format!("Panic({})", p.0),
             },
